@@ -35,9 +35,10 @@ def write_cfg(ctx, name, spec, consts, invariants=(), properties=(), extra=""):
     return name
 
 
-def consts(nc, tasks, gated, ops, nw=4, fix=None):
+def consts(nc, tasks, gated, ops, nw=4, fix=None, clear=False):
     fx = fix or FIX
     return ["NW = %d" % nw, "NC = %d" % nc, "Tasks <- %s" % tasks, "MCGated <- %s" % gated, "MaxOps <- %s" % ops,
+            "WithClear = %s" % ("TRUE" if clear else "FALSE"),
             "FixJoin = %s" % fx["FixJoin"], "FixGrow = %s" % fx["FixGrow"]]
 
 
@@ -59,6 +60,10 @@ def model_runs(ctx):
         zero = set(r.coverage_zero_actions()) - {"P8", "SpawnRefused"}
         if zero:
             raise MachineryError("vacuity: actions never taken in the exhaustive run: %s" % sorted(zero))
+        # clear() among the operations (smaller budget)
+        cfgk = write_cfg(ctx, "gen_TPk_%s.cfg" % tag, "Spec2", consts(1, "T2", "G1", "Ops1_4", clear=True), SAFETY, ["NoRunWhileStopped"])
+        ctx.model("MC_TP", cfgk, workers=16, timeout=900)
+        os.remove(os.path.join(common.SPEC, cfgk))
     else:
         cfg = write_cfg(ctx, "gen_TP_%s.cfg" % tag, "Spec2", consts(1, "T3", "G2", "Ops1_6"), SAFETY, ["NoRunWhileStopped"])
         r = ctx.model("MC_TP", cfg, workers=16, timeout=3000, heap="12g", extra=["-coverage", "1"], expect_violated=expected())
@@ -69,6 +74,10 @@ def model_runs(ctx):
         cfgb = write_cfg(ctx, "gen_TPb_%s.cfg" % tag, "Spec2", consts(2, "T2", "G1", "Ops2_42"), SAFETY, ["NoRunWhileStopped"])
         ctx.model("MC_TP", cfgb, workers=16, timeout=3000, heap="12g")
         os.remove(os.path.join(common.SPEC, cfgb))
+        # clear() on a pool in any state among the operations
+        cfgk = write_cfg(ctx, "gen_TPk_%s.cfg" % tag, "Spec2", consts(1, "T3", "G2", "Ops1_5", clear=True), SAFETY, ["NoRunWhileStopped"])
+        ctx.model("MC_TP", cfgk, workers=16, timeout=3000, heap="12g")
+        os.remove(os.path.join(common.SPEC, cfgk))
         # pool sizes up to 3
         cfgc = write_cfg(ctx, "gen_TPc_%s.cfg" % tag, "Spec3", consts(1, "T3", "G2", "Ops1_5", nw=5), SAFETY, ["NoRunWhileStopped"])
         ctx.model("MC_TP", cfgc, workers=16, timeout=3000, heap="12g")
@@ -80,10 +89,10 @@ def model_runs(ctx):
     os.remove(os.path.join(common.SPEC, cfg))
 
 
-def sim_behaviours(ctx, num, depth, seed, nc=1, tasks="T3", gated="G2", ops="Ops1_7", spec="SimSpec", tag="a"):
+def sim_behaviours(ctx, num, depth, seed, nc=1, tasks="T3", gated="G2", ops="Ops1_7", spec="SimSpec", tag="a", clear=True):
     """TLC -simulate behaviours of the model as JSON (history variable)."""
     name = "gen_TPSim_%s_%d_%s.cfg" % (ctx.prop, os.getpid(), tag)
-    write_cfg(ctx, name, spec, consts(nc, tasks, gated, ops, nw=4 if spec == "SimSpec" else 5) + ["Depth = %d" % depth], ["Dump"])
+    write_cfg(ctx, name, spec, consts(nc, tasks, gated, ops, nw=4 if spec == "SimSpec" else 5, clear=clear) + ["Depth = %d" % depth], ["Dump"])
     r = common.tlc("MC_TPSim", name, workers=1, timeout=900, extra=["-simulate", "num=%d" % num, "-depth", str(depth), "-seed", str(seed + 1)])
     os.remove(os.path.join(common.SPEC, name))
     behs, seen = [], set()
